@@ -73,6 +73,7 @@ type Interp struct {
 	ccalls           int     // per running thread: nesting of C boundaries (for yield)
 	HandlerRuns      int
 	ThreadEnvChanged bool
+	NormalResumes    int // resume attempts on a coroutine whose status is normal
 	// hooks for checks
 	OnCall func(in *Interp, depth int)
 }
